@@ -532,6 +532,7 @@ func runC14(c *run.Ctx) {
 				}
 				if !whole {
 					c.Count("transient_reader_error_not_reported_and_document_not_loaded_whole(outside_the_statement)", 1)
+					bad = true // nothing more can be said about this root: no shadow comparison, no fresh replay
 					break
 				}
 			}
